@@ -1260,6 +1260,158 @@ fn gen_engine(rng: &mut Rng, out: &mut Out, tier: &str) {
     }
 }
 
+/// input-domain family of the run-loop section (separately seeded): what `gen_engine` never draws - three
+/// exchanges in any instrument order (the shutdown broadcast and `xlink<x>` over three links), every link
+/// kind on every position, requests on both sides / with fractions / for another or an unknown exchange
+/// (fatal index error) / refused by the risk manager (cid >= 5000) / with an order id, commands with 0-3
+/// requests, `und:` and non-matching filters, reports for unknown orders, the in-flight echo, shutdown
+/// first / last, histories of 30-60 events and (`long`) of 120-300 events without a terminal one, drop
+/// points anywhere up to beyond the end, consumers reading before every R-th event with R up to 7.
+fn gen_engine_wide(rng: &mut Rng, out: &mut Out, tier: &str, long: bool) {
+    let nex = rng.range(1, 3) as usize;
+    let links: String = (0..nex).map(|_| if long { *rng.pick(&['H', 'H', 'U', 'M']) } else { *rng.pick(&['H', 'H', 'H', 'C', 'M', 'U']) }).collect();
+    let mut defs: Vec<(usize, usize, usize)> = (0..nex).map(|e| (e, rng.below(3) as usize, 3)).collect();
+    for _ in 0..rng.below(3) {
+        defs.push((rng.below(nex as u64) as usize, rng.below(3) as usize, 3));
+    }
+    for k in (1..defs.len()).rev() {
+        let j = rng.below(k as u64 + 1) as usize;
+        defs.swap(k, j);
+    }
+    let nins = defs.len();
+    out.line(format!(
+        "init {} L {links} I {}",
+        if rng.chance(60) { "on" } else { "off" },
+        defs.iter().map(|(e, b, q)| format!("{e},{b},{q}")).collect::<Vec<_>>().join(" ")
+    ));
+    let len = if long {
+        rng.range(120, 300)
+    } else if rng.chance(15) {
+        rng.range(30, 60)
+    } else {
+        rng.range(0, if tier == "thorough" { 16 } else { 9 })
+    };
+    // where a shutdown goes, if any: first / last / anywhere
+    let shutdown_at: Option<i64> = if long {
+        None
+    } else {
+        match rng.below(6) {
+            0 => Some(0),
+            1 => Some(len - 1),
+            2 => Some(rng.below(len.max(1) as u64) as i64),
+            _ => None,
+        }
+    };
+    let prices = ["100", "101", "99.5", "0.01"];
+    let qtys = ["10", "1", "0.5", "0.00000001"];
+    let mut has_pos = vec![false; nins];
+    let mut next_cid = 10u64;
+    let mut next_refused = 5000u64;
+    let mut known: Vec<(usize, u64)> = vec![];
+    let mut nev = 0usize;
+    for step in 0..len {
+        let ex_of = |rng: &mut Rng, ins: usize| match rng.below(100) {
+            0..=84 => defs[ins].0,
+            85..=95 => rng.below(nex as u64) as usize,
+            _ if !long => nex + rng.below(2) as usize,
+            _ => defs[ins].0,
+        };
+        let mut created: Vec<(usize, u64)> = vec![];
+        let mut open_req = |rng: &mut Rng, created: &mut Vec<(usize, u64)>, refusable: bool| {
+            let ins = rng.below(nins as u64) as usize;
+            let cid = if refusable && rng.chance(20) {
+                next_refused += 1;
+                next_refused
+            } else {
+                next_cid += 1;
+                next_cid
+            };
+            created.push((ins, cid));
+            format!("o:{}:{ins}:{cid}:{}:{}:{}", ex_of(rng, ins), if rng.chance(50) { "B" } else { "S" }, rng.pick(&prices), rng.pick(&qtys))
+        };
+        let cancel_req = |rng: &mut Rng, known: &Vec<(usize, u64)>| {
+            let (ins, cid) = if known.is_empty() || rng.chance(15) { (rng.below(nins as u64) as usize, 900 + rng.below(3)) } else { *rng.pick(known) };
+            if rng.chance(30) { format!("c:{}:{ins}:{cid}:{}", ex_of(rng, ins), 1 + rng.below(3)) } else { format!("c:{}:{ins}:{cid}", ex_of(rng, ins)) }
+        };
+        if rng.chance(40) {
+            let mut reqs: Vec<String> = (0..rng.below(2)).map(|_| cancel_req(rng, &known)).collect();
+            for _ in 0..rng.below(3) {
+                reqs.push(open_req(rng, &mut created, true));
+            }
+            out.line(format!("algo {}", reqs.join(" ")).trim_end().to_string());
+        }
+        let i = rng.below(nins as u64) as usize;
+        let pick_order = |rng: &mut Rng, known: &Vec<(usize, u64)>| -> (usize, u64) {
+            if known.is_empty() || rng.chance(15) { (i, 700 + rng.below(4)) } else { *rng.pick(known) }
+        };
+        let filter = |rng: &mut Rng| match rng.below(9) {
+            0..=1 => "none".to_string(),
+            2 => format!("ex:{}", rng.below(nex as u64 + 1)),
+            3 => format!("ex:{},{}", rng.below(nex as u64), rng.below(nex as u64)),
+            4..=5 => format!("ins:{}", rng.below(nins as u64 + 1)),
+            6 => format!("ins:{},{}", rng.below(nins as u64), rng.below(nins as u64)),
+            7 => format!("und:{}-3", rng.below(3)),
+            _ => format!("und:{}-3,{}-4", rng.below(3), rng.below(3)),
+        };
+        let line = if shutdown_at == Some(step) {
+            "ev shutdown".to_string()
+        } else {
+            match rng.below(100) {
+                0..=11 => {
+                    let reqs: Vec<String> = (0..rng.below(4)).map(|_| open_req(rng, &mut created, false)).collect();
+                    format!("ev cmd_open {}", reqs.join(" ")).trim_end().to_string()
+                }
+                12..=19 => {
+                    let reqs: Vec<String> = (0..rng.below(4)).map(|_| cancel_req(rng, &known)).collect();
+                    format!("ev cmd_cancel {}", reqs.join(" ")).trim_end().to_string()
+                }
+                20..=29 => format!("ev trading {}", if rng.chance(50) { "on" } else { "off" }),
+                30..=47 => {
+                    let (ins, cid) = pick_order(rng, &known);
+                    match rng.below(20) {
+                        0 => format!("ev snap {ins} {cid} 10 100 F 0 0 0"),
+                        1..=4 => format!("ev snap {ins} {cid} {} {} X 0 0 0", rng.pick(&qtys), rng.pick(&prices)),
+                        _ => format!("ev snap {ins} {cid} {} {} O {} {} {}", rng.pick(&qtys), rng.pick(&prices), 1 + rng.below(3), rng.below(6), rng.pick(&["0", "5", "0.5"])),
+                    }
+                }
+                48..=55 => {
+                    let (ins, cid) = pick_order(rng, &known);
+                    format!("ev resp {ins} {cid} {}", if rng.chance(50) { "ok" } else { "err" })
+                }
+                56..=63 => format!("ev cancel_orders {}", filter(rng)),
+                64..=69 => format!("ev close_positions {}", filter(rng)),
+                70..=81 => {
+                    if has_pos[i] && rng.chance(35) {
+                        format!("ev reduce {i}")
+                    } else if has_pos[i] {
+                        has_pos[i] = false;
+                        format!("ev flat {i}")
+                    } else {
+                        has_pos[i] = true;
+                        format!("ev fill {i} {} {}", if rng.chance(50) { "B" } else { "S" }, rng.pick(&["1", "3", "0.5", "1000000"]))
+                    }
+                }
+                82..=90 => format!("ev other {} {}", rng.pick(&["mktre", "accre", "bal"]), rng.below(nex as u64)),
+                _ => format!("ev price {i} {}", rng.pick(&["100", "104", "99.5", "0.25"])),
+            }
+        };
+        out.line(line);
+        known.append(&mut created);
+        nev += 1;
+    }
+    let mut ks: Vec<usize> = vec![rng.below(nev as u64 + 3) as usize, *rng.pick(&[0, 1, nev, nev + 1, nev + 2])];
+    if long {
+        ks.truncate(1);
+    }
+    for k in ks {
+        out.line(format!("rundrop {} {k}", if rng.chance(50) { "sync" } else { "async" }));
+    }
+    out.line(format!("runprod {} {}", if rng.chance(50) { "sync" } else { "async" }, rng.pick(&[0u64, 1, 2, 3, 5, 7])));
+    if !long && rng.chance(40) {
+        out.line(format!("runprod {} {}", if rng.chance(50) { "sync" } else { "async" }, rng.below(8)));
+    }
+}
+
 fn gen_case(rng: &mut Rng, out: &mut Out, tier: &str) {
     let big = tier == "thorough";
     let len = rng.range(1, if big { 60 } else { 30 });
@@ -1369,6 +1521,16 @@ fn generate(seed: u64, n_cases: usize, tier: &str) {
     for k in 0..n_cases {
         out.case(format!("r{k}"));
         gen_case(&mut rng, &mut out, tier);
+    }
+    // input-domain family of the run-loop section, seeded apart: the cases above stay what they were
+    let mut wrng = Rng::new(seed ^ 0x10C0_D011);
+    for k in 0..n_cases / 8 {
+        out.case(format!("we{k}"));
+        gen_engine_wide(&mut wrng, &mut out, tier, false);
+    }
+    for k in 0..(if tier == "thorough" { 10 } else { 2 }) {
+        out.case(format!("le{k}"));
+        gen_engine_wide(&mut wrng, &mut out, tier, true);
     }
     out.flush();
 }
